@@ -42,6 +42,20 @@ if [ "$TIER" = "thorough" ] && [ $rc -eq 0 ] && [ ${#ARGS[@]} -eq 0 ]; then
     C17) TARGETS="asm:2000000:512";;
     *) TARGETS="";;
   esac
+  # the panic-class properties are re-run on a plain release build (wrapping arithmetic takes other paths)
+  if [ "$ID" = "C09" ] || [ "$ID" = "C16" ]; then
+    if cargo build --profile plain --bin vcheck >"$BUILD_LOG.plain" 2>&1; then
+      pout=$(VERIF_NO_EVIDENCE=1 "$ROOT/harness/target/plain/vcheck" "$ID" "$TIER"); prc=$?
+      echo "plain build: $(echo "$pout" | head -1)"
+      echo "$pout" | grep -E "^VIOLATION|^failing check|^case:|^INCONCLUSIVE"
+      PLAIN_SUMMARY="$(echo "$pout" | head -1)"
+      [ $prc -eq 1 ] && rc=1
+      [ $prc -eq 2 ] && [ $rc -eq 0 ] && rc=2
+      rm -f "$ROOT/evidence/$ID.plain-build.json"
+    else
+      echo "INCONCLUSIVE: plain build of the harness failed (see $BUILD_LOG.plain)"; [ $rc -eq 0 ] && rc=2
+    fi
+  fi
   FUZZ_SUMMARY=""
   for spec in $TARGETS; do
     IFS=: read -r T RUNS MAXLEN <<<"$spec"
@@ -61,7 +75,7 @@ if [ "$TIER" = "thorough" ] && [ $rc -eq 0 ] && [ ${#ARGS[@]} -eq 0 ]; then
     done
   done
   if [ -n "$FUZZ_SUMMARY" ]; then
-    python3 - "$ROOT/evidence/$ID.json" "$FUZZ_SUMMARY" <<'PY'
+    PLAIN_SUMMARY="${PLAIN_SUMMARY:-}" python3 - "$ROOT/evidence/$ID.json" "$FUZZ_SUMMARY" <<'PY'
 import json, sys
 p, summary = sys.argv[1], sys.argv[2]
 try:
@@ -69,6 +83,9 @@ try:
     runs = [s for s in summary.split(';') if s]
     e['coverage']['libfuzzer_campaigns'] = runs
     e['coverage']['libfuzzer_executions'] = sum(int(x.split('executions=')[1].split()[0]) for x in runs if 'executions=' in x)
+    import os
+    if os.environ.get('PLAIN_SUMMARY'):
+        e['coverage']['plain_release_build_rerun'] = os.environ['PLAIN_SUMMARY']
     json.dump(e, open(p, 'w'), indent=1)
 except Exception as ex:
     print('could not record fuzz summary:', ex)
